@@ -353,9 +353,15 @@ func init() {
 	M("DB", "Flatten", func(fr *frame, args []value) value { return iface{} })
 	M("DB", "Sync", func(fr *frame, args []value) value { return iface{} })
 	M("DB", "Size", func(fr *frame, args []value) value { return tuple{int64(0), int64(0)} })
-	M("DB", "Backup", func(fr *frame, args []value) value { return kvBackup(fr, db(args[0]), args[1], args[2]) })
+	M("DB", "Backup", func(fr *frame, args []value) value {
+		txnPoint(fr) // the stream reads a snapshot: a scheduling point like a transaction start
+		return kvBackup(fr, db(args[0]), args[1], args[2])
+	})
 	// MaxVersion: the version of the last commit
-	M("DB", "MaxVersion", func(fr *frame, args []value) value { return db(args[0]).disk.version })
+	M("DB", "MaxVersion", func(fr *frame, args []value) value {
+		txnPoint(fr)
+		return db(args[0]).disk.version
+	})
 
 	M("Sequence", "Next", func(fr *frame, args []value) value {
 		s := seq(args[0])
